@@ -39,15 +39,18 @@ CONSTANTS
     Kinds,        \* operation kinds in the alphabet
     MaxKeysOps,   \* bound on the number of keys operations in a behaviour
     MaxRestarts,
+    Faults,       \* fault classes of the slotf operations
+    MaxFaults,    \* bound on the number of slotf operations in a behaviour
     Emit
 
-VARIABLES env, ks, gh, resp, last, hist, cnt
-vars == <<env, ks, gh, resp, last, hist, cnt>>
+VARIABLES env, ks, gh, resp, last, hist, cnt, tags
+vars == <<env, ks, gh, resp, last, hist, cnt, tags>>
 
 Keypers == {"A", "B"}
 
 AlphabetSet ==
     (IF "slot" \in Kinds THEN {[Op0 EXCEPT !.op = "slot", !.K = K, !.s = s] : K \in KSets, s \in 1..MaxSlot} ELSE {}) \cup
+    (IF "slotf" \in Kinds THEN {[Op0 EXCEPT !.op = "slotf", !.K = K, !.s = s, !.g = f] : K \in KSets, s \in 1..MaxSlot, f \in Faults} ELSE {}) \cup
     (IF "in" \in Kinds THEN
         {[Op0 EXCEPT !.op = "in", !.K = K, !.e = e, !.p = pn[1], !.n = pn[2]] : K \in KSets, e \in EonSet, pn \in KeysPN} \cup
         {[Op0 EXCEPT !.op = "in", !.K = K, !.e = e, !.m = TRUE] : K \in KSets, e \in EonSet}
@@ -74,10 +77,11 @@ IsKeysOp(o) == o.op \in {"in", "out", "fwd"}
 
 (* operations the environment can produce in state (en, kk) *)
 Enabled(en, kk, c, o) ==
-    CASE o.op = "slot" ->
+    CASE o.op \in {"slot", "slotf"} ->
            (* the clock does not run backwards over a restart: a new Keyper object only sees
               later slots; an old object may be ticked again for the slot it just handled *)
-           \A k \in InSet(o.K) : IF kk[k].fresh THEN o.s > kk[k].latest ELSE o.s >= kk[k].latest
+           /\ \A k \in InSet(o.K) : IF kk[k].fresh THEN o.s > kk[k].latest ELSE o.s >= kk[k].latest
+           /\ o.op = "slotf" => c.flt < MaxFaults
       [] o.op = "in"  -> /\ c.keys < MaxKeysOps
                          /\ o.e <= en.active
                          /\ o.m => \A k \in InSet(o.K) : kk[k].cur[o.e].row
@@ -102,7 +106,8 @@ Init ==
     /\ gh = [A |-> GhostInit, B |-> GhostInit]
     /\ resp = [A |-> Idle, B |-> Idle]
     /\ last = 0
-    /\ cnt = [keys |-> 0, rst |-> 0]
+    /\ cnt = [keys |-> 0, rst |-> 0, flt |-> 0]
+    /\ tags = {}
 
 Step(i) ==
     LET o == Alphabet[i] IN
@@ -112,7 +117,12 @@ Step(i) ==
        /\ ks' = [A |-> x["A"].st, B |-> x["B"].st]
        /\ resp' = [A |-> x["A"].r, B |-> x["B"].r]
        /\ gh' = [A |-> GhostStep(gh.A, env, o, x["A"].r), B |-> GhostStep(gh.B, env, o, x["B"].r)]
-    /\ cnt' = [keys |-> cnt.keys + (IF IsKeysOp(o) THEN 1 ELSE 0), rst |-> cnt.rst + (IF o.op = "restart" THEN 1 ELSE 0)]
+    /\ cnt' = [keys |-> cnt.keys + (IF IsKeysOp(o) THEN 1 ELSE 0), rst |-> cnt.rst + (IF o.op = "restart" THEN 1 ELSE 0),
+               flt |-> cnt.flt + (IF o.op = "slotf" THEN 1 ELSE 0)]
+    (* a second offer of a slot is a no-op of the spec: remember for whom one was made, so that
+       histories continue past it (an implementation in which it has an effect is driven on) *)
+    /\ tags' = tags \cup (IF o.op = "slot" /\ cnt.flt > 0
+                          THEN {k \in InSet(o.K) : ~ks[k].fresh /\ o.s <= ks[k].latest} ELSE {})
     /\ last' = i
     /\ hist' = Append(hist, i)
 
@@ -136,10 +146,13 @@ AgreeInv ==
    the observed answers): shows the ghost is the right reading of the tx_pointer table *)
 GhostInv ==
     \A k \in Keypers : \A e \in EonSet :
-        IF ks[k].ptr[e].row THEN gh[k].gp[e] = ks[k].ptr[e].value /\ gh[k].ga[e] = ks[k].ptr[e].age
-        ELSE gh[k].gp[e] = None
+        IF ks[k].ptr[e].row
+        THEN /\ gh[k].gp[e] = ks[k].ptr[e].value
+             /\ IF ks[k].ptr[e].age = Null THEN gh[k].ga[e] = Null
+                ELSE gh[k].ga[e] # Null /\ Max2(gh[k].glo[e], 0) <= ks[k].ptr[e].age /\ ks[k].ptr[e].age <= gh[k].ghi[e]
+        ELSE gh[k].gp[e] \in {None, 0}
 
 EmitInv == (~Emit) \/ PrintT(<<"B", hist>>)
-View == <<env, ks, gh, cnt, last>>
+View == <<env, ks, gh, cnt, tags, last>>
 
 =============================================================================
